@@ -13,11 +13,10 @@ from harness.gen import geomspec as S
 ID = 'C06'
 MODULE = 'EmsModel.Props.C06'
 DRIVER = 'C06'
-REQUIRED = []
-REQUIRED_LATER = [
+REQUIRED = [
     'Ems.C06.cf1d_polygon_at', 'Ems.C06.cf1d_length', 'Ems.C06.midBounds_interior', 'Ems.C06.midBounds_outer',
     'Ems.C06.cf2d_polygon_at', 'Ems.C06.arakawa_polygon_at', 'Ems.C06.ugrid_polygon_at',
-    'Ems.C06.missing_no_polygon', 'Ems.C06.mask_iff', 'Ems.C06.invalid_dropped', 'Ems.C06.warned_iff',
+    'Ems.C06.missing_no_polygon', 'Ems.C06.storedCorners_spec', 'Ems.C06.ugrid_bad_node', 'Ems.C06.midBounds_length', 'Ems.C06.mask_iff', 'Ems.C06.invalid_dropped', 'Ems.C06.warned_iff',
     'Ems.C06.bbox_spec',
 ]
 RULE = ('datasets of every convention from the recipe generator: CF 1-D axes ascending / descending / non-uniform, '
